@@ -50,7 +50,9 @@ Outs == DOMAIN grid
 NOut == Len(grid)
 
 LL_NonDecr(s) == \A i \in 1..(Len(s) - 1) : s[i] <= s[i + 1]
-LL_Grids      == {g \in UNION {[1..k -> TimeDom] : k \in 1..MaxLen} : LL_NonDecr(g)}
+\* an output may have NO observation at all (an unbalanced design: the problem controller builds such likelihoods for
+\* individuals who were not measured for one of the mapped observables); its error model still owns its slice
+LL_Grids      == {g \in UNION {[1..k -> TimeDom] : k \in 0..MaxLen} : LL_NonDecr(g)}
 LL_Rng(s)     == {s[i] : i \in DOMAIN s}
 LL_BagOfSeq(s) == [e \in LL_Rng(s) |-> Cardinality({i \in DOMAIN s : s[i] = e})]
 LL_Flatten(ss) == FoldLeft(LAMBDA acc, x : acc \o x, <<>>, ss)
@@ -122,6 +124,7 @@ NoEval == [op |-> "none", bag |-> EmptyBag, seq |-> <<>>, grad |-> <<>>, solved 
 
 Init == /\ \E n \in 1..MaxOut :
              /\ grid \in [1..n -> LL_Grids]
+             /\ \E o \in 1..n : Len(grid[o]) > 0
              /\ IF KindMode = "all" THEN kind \in [1..n -> Kinds]
                 ELSE \E r \in 0..3 : kind = [o \in 1..n |-> KindSeq[((r + o - 1) % 4) + 1]]
         /\ sens = FALSE /\ last = NoEval /\ calls = 0
@@ -159,7 +162,7 @@ View  == <<grid, kind, sens, last>>   \* the history length is not part of the s
 -----------------------------------------------------------------------------
 (* Properties (C01; gradient layout for C03; counts for C17; history       *)
 (* independence for C19).                                                  *)
-TypeOK == /\ \A o \in Outs : LL_NonDecr(grid[o]) /\ Len(grid[o]) \in 1..MaxLen
+TypeOK == /\ \A o \in Outs : LL_NonDecr(grid[o]) /\ Len(grid[o]) \in 0..MaxLen
           /\ sens \in BOOLEAN
 
 \* every measurement contributes exactly once and is paired with its own output and time
